@@ -67,7 +67,7 @@ let () =
     match split_ws line with
     | id :: v :: wc :: wo :: rc :: ro :: ops ->
       let n s = nat_of_int (int_of_string s) in
-      if int_of_string v >= 30 then begin
+      if int_of_string v >= 30 && int_of_string v < 40 then begin
         let gops = parse_gops ops in
         let w = gworld_init (n wc) (n wo) (n rc) (n ro) in
         Printf.printf "M %s %s\n" id (String.concat " " (List.map show_g (grun (variant (int_of_string v - 30)) w gops)));
